@@ -24,6 +24,7 @@ LEVEL_TEXT = (
     "create_checkpoint after its last state mutation (the stopping batch is saved); the constructor keeps precision 0 "
     "as 0. Decides these clauses for all inputs/paths; numerical rounding is numpy's."
     ' The loss history the stopping test reads is written by the calibrator only: no in-place write through an alias lent to a sampler / loss / checkpoint writer (alias analysis of C02-R7 restricted to losses_samp).'
+    ' The non-interference rule of C01 is included (verbosity reaches only prints; create_checkpoint changes no calibrator state, so the folder calibrate() writes to is the configured one).'
 )
 TECHNIQUE = "finite abstract evaluation of one loop iteration over a truth table of atoms (path-sensitive, three-valued) + event-order queries on the abstract paths + formula normal form"
 
